@@ -39,7 +39,7 @@ def pushR (s : DS) (ops : List (FsOp × Res)) : DS :=
 /-- a block whose count field is not the number of its entries (a wrapped `EntryCount`) starts in `f` -/
 def hasWrappedBlock (f : List Cell) : Bool :=
   f.any fun c => match c with
-    | .bh b 0 => b.cnt != b.ents.length
+    | .bh b 0 => b.hdr.length == 16 && maxEnts < b.ents.length && b.cnt != b.ents.length
     | _ => false
 
 /-- name the defect by what the file looks like at the end, not only by the first fault -/
